@@ -1,4 +1,6 @@
 import BV.Model.Ledger
+import BV.Model.AllocSkel
+import BV.Gen.LedgerSkel
 import BV.Drive.Util
 /-!
 Line protocol of engine `ledger` (C09).
@@ -17,6 +19,13 @@ Line protocol of engine `ledger` (C09).
   generated site flags: `clean`, `leak`, `foreign`, `leak+foreign`.
 * `ledger cq <cap0> <pushes>` — the IR command queue from its first allocation through `pushes` pushes to
   `free`: `a=<allocs> f=<frees> live=<n> caps=<c0+c1+…> loc=<n> ok=<0|1>`.
+* `ledger sk <root> q<quality> log<0|1> <ev>…` — trace inclusion for the allocation skeletons generated from the Rust
+  source (`BV/Gen/LedgerSkel.lean`): the events (`A:<type>` / `F:<type>`, in order) the counting allocator
+  recorded while ONE activation of `<root>` ran must be the event sequence of some path of the expanded
+  skeleton (`BV.Skel.accepts`): `ok`, else `not-a-path`.  `ok` is also the answer when no claim is made: the
+  root has no skeleton, the configuration enters a callee that is known to be opaque (`BrotliBuildMetaBlock`
+  at quality ≥ 10, `LogMetaBlock` with IR logging), or the expansion contains an opaque callee outside that
+  list (extraction of some function failed after a refactoring: the run-time check decides).
 * `ledger log <ev>…` — the spec-side judge on a raw allocator log (`A<a>.<n>`, `F<via>.<a>.<n>`,
   `D<a>.<n>`): `owed=… foreign=… dropped=… double=… unknown=…`.
 -/
@@ -209,9 +218,56 @@ def handleCq (args : List String) : String :=
     s!"a={j.allocs} f={j.frees} live={j.live.length} caps={"+".intercalate (cs.map toString)} loc={s.2.loc} ok={if r.2 then 1 else 0}"
   | _ => "bad-op"
 
+/-! ### `ledger sk` -/
+
+def skFuel : Nat := 16
+
+def skRoot (name : String) : Option (BV.Skel.Sk × List Nat) :=
+  match BV.Gen.skelRoots.find? (fun r => r.1 = name) with
+  | none => none
+  | some r => (BV.Skel.rootOf BV.Gen.skelFns skFuel r.2.1 r.2.2).map (fun s => (s, r.2.2))
+
+def opaquesOf : BV.Skel.Sk → List Nat
+  | .seq a b => opaquesOf a ++ opaquesOf b
+  | .alt a b => opaquesOf a ++ opaquesOf b
+  | .loop b => opaquesOf b
+  | .scope _ b => opaquesOf b
+  | .opaque f => [f]
+  | .call f _ _ => [f]
+  | _ => []
+
+def fnName (f : Nat) : String := BV.Gen.skelFnNames.getD f "?"
+
+/-- callees that are opaque today and the configurations in which an activation enters them -/
+def knownOpaque : List String := ["BrotliBuildMetaBlock", "LogMetaBlock"]
+
+def parseSkEv (t : String) : Option (Bool × Nat) :=
+  match splitChar ':' t with
+  | [k, ty] =>
+    let i := BV.Gen.skelTypes.idxOf ty
+    let n := if i < BV.Gen.skelTypes.length then i else 0
+    if k = "A" then some (true, n) else if k = "F" then some (false, n) else none
+  | _ => none
+
+def handleSk (args : List String) : String :=
+  match args with
+  | name :: q :: lg :: evs =>
+    match skRoot name with
+    | none => "ok"
+    | some (sk, _) =>
+      let ops := (opaquesOf sk).map fnName
+      if ops.any (fun n => !knownOpaque.contains n) then "ok" else
+      if ops.contains "BrotliBuildMetaBlock" ∧ 10 ≤ argNat "q" [q] then "ok" else
+      if ops.contains "LogMetaBlock" ∧ argNat "log" [lg] = 1 then "ok" else
+      match evs.mapM parseSkEv with
+      | none => "not-a-path"
+      | some w => if BV.Skel.accepts sk w.toArray then "ok" else "not-a-path"
+  | _ => "bad-op"
+
 def handle (args : List String) : String :=
   match args with
   | "cq" :: rest => handleCq rest
+  | "sk" :: rest => handleSk rest
   | "inst" :: rest => handleInst rest
   | "ep" :: rest => handleEp rest
   | "log" :: rest => handleLog rest
